@@ -288,10 +288,12 @@ def kde_multivariate(events_x, events_y, xout=None, yout=None, bw=None):
         bw = (bin_width_doane(events_x) / 2,
               bin_width_doane(events_y) / 2)
 
-    positions = np.vstack([xout.flatten(), yout.flatten()])
-    estimator_ly = KDEMultivariate(data=[events_x.flatten(),
-                                         events_y.flatten()],
-                                   var_type='cc', bw=bw)
+    # Use arrays of shape (N, 2) (one row per event/position). The
+    # estimator would otherwise guess the orientation of (2, 2) arrays.
+    positions = np.column_stack([xout.flatten(), yout.flatten()])
+    estimator_ly = KDEMultivariate(
+        data=np.column_stack([events_x.flatten(), events_y.flatten()]),
+        var_type='cc', bw=bw)
 
     density = estimator_ly.pdf(positions)
     return density.reshape(xout.shape)
